@@ -370,7 +370,7 @@ fn build(_cfg: &Cfg) -> Vec<Cand> {
 fn run(cfg: &Cfg) -> Report {
     let mut rep = Report::new(
         cfg,
-        "the complete table {unit alias} x {34 prefixes} x {long spelling, every short spelling} of the prelude plus the bare aliases and near-miss spellings (capitalised and doubled prefixes), enumerated on every run. Expected acceptance comes from the unit's decorators (alias accepts short/long prefixes, unit declares metric/binary prefixes) and an independent prefix table. Accepted => `1 ident` is read (by evaluation and by the session's prefix parser) as exactly that prefix and unit with value 1, and the unit text of its displayed form reads back as the same prefixed unit. Not accepted => it is not read as that unit with that prefix. Uniqueness: over all accepted forms no identifier has two different (prefix, unit) readings and none is a prelude variable or function name. non-trivial = identifier carries a prefix (or a rejected combination); distinct = identifier",
+        "the complete table {unit alias} x {34 prefixes} x {long spelling, every short spelling} of the prelude plus the bare aliases and near-miss spellings (capitalised and doubled prefixes), enumerated on every run. First the decorators as written in the module sources (@aliases with short/long/both/none, @metric_prefixes, @binary_prefixes; read by a parser of our own) are compared with what the session registered for every unit. Expected acceptance comes from the unit's decorators (alias accepts short/long prefixes, unit declares metric/binary prefixes) and an independent prefix table. Accepted => `1 ident` is read (by evaluation and by the session's prefix parser) as exactly that prefix and unit with value 1, and the unit text of its displayed form reads back as the same prefixed unit. Not accepted => it is not read as that unit with that prefix. Uniqueness: over all accepted forms no identifier has two different (prefix, unit) readings and none is a prelude variable or function name. non-trivial = identifier carries a prefix (or a rejected combination); distinct = identifier",
     );
     let cat = prelude_catalogue();
     let cands = build(cfg);
